@@ -7,3 +7,10 @@ chk("C04", "differential testing against mirrored Python evaluation (exhaustive 
     "in-place operator, each compared by value and type (or exception type) with direct Python evaluation of the mirrored term; "
     "decides the homomorphism on the enumerated grid and samples it on trees.",
     TRUST, "DESIGN.md 4/C04", engine="hypothesis + enumeration")
+
+chk("C01", "model-based testing of generated assignment histories against a pull-model reference interpreter",
+    "Hypothesis-generated histories (3..30 operations over nested dict/list/attribute containers, expression / function / knob "
+    "tasks, consumer-before-producer order) and deep/wide graph shapes (chains to 5000); after every operation every location is "
+    "compared with an independent pull-model re-evaluation in true data-flow order.",
+    TRUST + " Known finding K1 (ordering cycle through a shared nested container) is excluded by construction and counted.",
+    "DESIGN.md 4/C01")
